@@ -112,6 +112,10 @@ pub fn run_sequence(ctx: &mut Ctx, bytes: &[u8]) -> Result<bool, Failure> {
         // not a `file:` URI, but its path exists on disk
         format!("untitled:{}", wd.path.join("gleam.toml").display()),
         format!("untitled:{}", wd.path.join("src/d0.gleam").display()),
+        // directories: the project root itself and its parent (ancestors of a known root)
+        uri_of(&wd.path),
+        uri_of(wd.path.parent().unwrap_or(&wd.path)),
+        uri_of(&wd.path.join("src")),
     ];
     let mut lsp = Lsp::spawn(&wd.path, &[]).map_err(|e| Failure::new(format!("cannot start glas: {e}"), case.clone()).sig("kind", "harness"))?;
     if !lsp.initialize(&wd.path) {
